@@ -233,6 +233,9 @@ pub struct StreamCtl {
     pub gate: Arc<Gate>,
     /// completed `next` calls (any result)
     pub nexts_done: AtomicU64,
+    /// completed `next` calls that carried a queue entry (not the in-band report, which does not
+    /// take anything out of the queue)
+    pub entry_nexts_done: AtomicU64,
     /// key unblocked after every completed `next`
     pub next_key: u64,
     pub flushes_done: AtomicU64,
@@ -269,6 +272,7 @@ impl RecStream {
             hist,
             gate: Gate::new(gate_initial),
             nexts_done: AtomicU64::new(0),
+            entry_nexts_done: AtomicU64::new(0),
             next_key: detsim::fresh_key(),
             flushes_done: AtomicU64::new(0),
             dropped: AtomicU64::new(0),
@@ -346,6 +350,9 @@ impl EntryIoStream for RecStream {
         };
         self.ctl.hist.log(K::NextEnd { stream: no, id: seen.id, report: seen.report, res });
         self.ctl.nexts_done.fetch_add(1, Ordering::SeqCst);
+        if !seen.report {
+            self.ctl.entry_nexts_done.fetch_add(1, Ordering::SeqCst);
+        }
         detsim::unblock(self.ctl.next_key);
         res_to_result(res, seen.id.unwrap_or(7))
     }
